@@ -60,8 +60,8 @@ def run_grid(ctx, model, impl, thorough):
 def run_builtins(ctx, impl, thorough):
     rng = ctx.rng
     fns = builtingen.load_functions(V.REPO)
-    calls = [(t, n, s, c) for t, n, s, c in BUILTIN_CORPUS] + builtingen.gen_calls(rng, fns, 160 if thorough else 40)
-    rep = V.run_batch(impl + ["builtin"], [c[0] for c in calls], hang_s=3, mem_kb=4_000_000, max_failures=60)
+    calls = [(t, n, s, c) for t, n, s, c in BUILTIN_CORPUS] + builtingen.gen_calls(rng, fns, 160 if thorough else 24)
+    rep = EU.run_sharded(impl + ["builtin"], [c[0] for c in calls], hang_s=3, mem_kb=4_000_000, max_failures=60)
     classes = {}
     per_fn = {}
     for (text, name, sig, cls), r in zip(calls, rep):
@@ -78,6 +78,63 @@ def run_builtins(ctx, impl, thorough):
                                 "argument_classes": builtingen.CLASSES}
     ctx.samples += [{"builtin": calls[i][0][:160], "outcome": (rep[i] or "")[:40]} for i in (len(BUILTIN_CORPUS), len(calls) - 1)]
     return len(calls), len(set(c[0] for c in calls))
+
+
+def run_builtin_models(ctx, model, impl, thorough):
+    """built-ins whose loops / allocations are driven by an argument, against Model/Builtins.v: std.strrep, std.strpad,
+    randomstr with hostile arguments (huge / negative counts, counts around the workspace limit, empty and 64 KiB strings);
+    compared: value or error, the length, the bytes when they are few"""
+    rng = ctx.rng
+    strs = [b"", b"a", b"ab", b"xyz" * 33, b"a" * 65536]
+    counts = [-2**63, -5, -1, 0, 1, 2, 3, 7, 1000, 65535, 65536, 131072, 262143, 262144, 262145, 2**31, 2**53 + 1, 2**63 - 1]
+    pads = [b"", b"x", b"xy", b"a" * 65536]
+    cases = []
+    for s_ in strs:
+        for c in counts:
+            cases.append(("std.strrep RECV %s %s" % (evalgen.impl_text(rng.choice("vl"), ("S", s_, 0)), evalgen.impl_text("v", ("I", c, 0, 0, 0))),
+                          "bi strrep %s %d" % (s_.hex() or "-", c), "value"))
+            for p_ in pads:
+                for sign in (1, -1):
+                    if c in (-2**63,) and sign == -1:
+                        continue
+                    cases.append(("std.strpad RECV %s %s %s" % (evalgen.impl_text("l", ("S", s_, 0)), evalgen.impl_text("v", ("I", sign * c, 0, 0, 0)),
+                                                                 evalgen.impl_text("l", ("S", p_, 0))),
+                                  "bi strpad %s %d %s" % (s_.hex() or "-", sign * c, p_.hex() or "-"), "value"))
+    # (the extracted model builds the string recursively: lengths up to 100000; the limit itself is probed by 262145)
+    for c in [-2**63, -5, -1, 0, 1, 7, 1000, 65536, 100000, 262145, 2**31, 2**63 - 1]:
+        for cs in (None, b"", b"ab", b"a" * 65536):
+            req = "randomstr RECV %s" % evalgen.impl_text("v", ("I", c, 0, 0, 0)) + ("" if cs is None else " " + evalgen.impl_text("l", ("S", cs, 0)))
+            dflt = b"abcdefghijklmnopqrstuvwxyzABCDEFGHIJKLMNOPQRSTUVWXYZ0123456789-_"
+            cases.append((req, "bi randomstr %d %s" % (c, ((dflt if cs is None else cs).hex() or "-")), "length"))
+    if not thorough:     # the calls with 64 KiB arguments are slow: every twelfth of them in the quick tier, all in thorough
+        big = [c for c in cases if len(c[0]) > 100000]
+        cases = [c for c in cases if len(c[0]) <= 100000] + big[ctx.seed % 12::12]
+    irep = EU.run_sharded(impl + ["builtin"], [c[0] for c in cases], hang_s=5, mem_kb=4_000_000, max_failures=20)
+    mrep = EU.run_sharded([model], [c[1] for c in cases], hang_s=60)
+    agree = 0
+    out = {}
+    for (ireq, mreq, how), ir, mr in zip(cases, irep, mrep):
+        i, m = (ir or "none").split(), (mr or "none").split()
+        out[i[0]] = out.get(i[0], 0) + 1
+        if i[0] == "ok" and len(i) >= 4:
+            ic = ("ok", i[2], i[3], (i[4] if len(i) > 4 else "") if how == "value" else "-")
+        else:
+            ic = (i[0],)
+        if m[0] == "ok":
+            mc = ("ok", m[1], m[2], (m[3] if len(m) > 3 else "") if how == "value" else "-")
+        else:
+            mc = (m[0],)
+        if how == "length" and ic[0] == "ok" and mc[0] == "ok":
+            ic, mc = ic[:3], mc[:3]
+        if ic == mc:
+            agree += 1
+        else:
+            ctx.violation("built-in differs from Model/Builtins.v: %s -> interpreter %s, model %s" % (
+                " ".join(w[:60] for w in ireq.split()), " ".join(i[:4])[:100], " ".join(m[:3])[:100]),
+                {"call": ireq[:3000], "impl": (ir or "")[:400], "model_request": mreq[:3000], "model": (mr or "")[:400]})
+    ctx.coverage["builtin_models"] = {"calls": len(cases), "agree_with_model": agree, "interpreter_outcomes": out,
+                                      "functions": ["std.strrep", "std.strpad", "randomstr"]}
+    return len(cases), len(cases)
 
 
 def _req(mods, reqs):
@@ -123,8 +180,8 @@ def run_sims(ctx, model, impl, thorough):
         else:
             p = simgen.gen_scope_program(rng, stats)
             add("scope", p, rq, [("main", p)], "sim ((error))")
-    irep = V.run_batch(impl + ["simrun"], ireq, hang_s=3, mem_kb=4_000_000, max_failures=16)
-    mrep = V.run_batch([model], mreq, hang_s=60)
+    irep = EU.run_sharded(impl + ["simrun"], ireq, hang_s=3, mem_kb=4_000_000, max_failures=16)
+    mrep = EU.run_sharded([model], mreq, hang_s=60)
     counts = {}
     requests = 0
     pos_reached, pos_restarted = {}, set()
@@ -190,13 +247,13 @@ def run_histories(ctx, impl, thorough):
     fatal error, restarts <= 3."""
     rng = ctx.rng
     stats = {}
-    cases = [("growth %s ~%d then idle %ds" % (n, size, idle), prog, ops) for n, size, idle, prog, ops in histgen.growth_sweep()]
+    cases = [("growth %s ~%d then idle %ds" % (n, size, idle), prog, ops) for n, size, idle, prog, ops in histgen.growth_sweep(thorough)]
     n_sweep = len(cases)
     for _ in range(600 if thorough else 15):
         prog, ops = histgen.gen_history(rng, stats)
         cases.append(("random", prog, ops))
     reqs = ["main=%s %s" % (prog.encode().hex(), ops) for _, prog, ops in cases]
-    rep = V.run_batch(impl + ["simhist"], reqs, hang_s=20, mem_kb=4_000_000, max_failures=10)
+    rep = EU.run_sharded(impl + ["simhist"], reqs, hang_s=20, mem_kb=4_000_000, max_failures=10)
     total = 0
     worst = {"rc": 0, "pb": 0, "cache": 0}
     for (label, prog, ops), r in zip(cases, rep):
@@ -225,7 +282,7 @@ def run_paths(ctx, impl, thorough):
     warm and cold.  Oracle: every request ends with a response or a reported error, no panic / hang, restarts <= 3."""
     hs = list(pathgen.histories(thorough))
     reqs = ["main=%s %s" % (p.encode().hex(), ";".join("%s=%s=%s" % (m, u.encode().hex(), h.encode().hex()) for m, u, h in r)) for _, p, r in hs]
-    rep = V.run_batch(impl + ["simrun"], reqs, hang_s=3, mem_kb=4_000_000, max_failures=12)
+    rep = EU.run_sharded(impl + ["simrun"], reqs, hang_s=3, mem_kb=4_000_000, max_failures=12)
     out = {}
     n = 0
     for (label, prog, rq), r in zip(hs, rep):
@@ -262,8 +319,8 @@ def run_graphs(ctx, model, impl, thorough):
     g = [("GET", "/")]
     ireq = [_req([("main", graphgen.render(gr, ex))], g) for _, gr, ex in cases]
     mreq = [graphgen.model_text(gr, ex) for _, gr, ex in cases]
-    irep = V.run_batch(impl + ["simrun"], ireq, hang_s=3, mem_kb=4_000_000, max_failures=12)
-    mrep = V.run_batch([model], mreq, hang_s=60)
+    irep = EU.run_sharded(impl + ["simrun"], ireq, hang_s=3, mem_kb=4_000_000, max_failures=12)
+    mrep = EU.run_sharded([model], mreq, hang_s=60)
     out = {}
     for (label, gr, ex), ir, mr in zip(cases, irep, mrep):
         replay = {"shape": label, "subroutines": len(gr), "vcl_recv_enters_the_graph": ex, "program": graphgen.render(gr, ex)[:20000],
@@ -348,13 +405,42 @@ def run(ctx):
         "NOT modelled, exercised only through the implementation: built-in function bodies, the request flow outside vcl_recv "
         "(hash/hit/miss/pass/fetch/error/deliver/log), net/http, PCRE",
     ]
+    import time as _t
+    t0 = _t.time()
+    timing = {}
+
+    def lap(name):
+        nonlocal t0
+        timing[name] = round(_t.time() - t0, 1)
+        t0 = _t.time()
+    lap("prove+build")
     n1, d1 = run_grid(ctx, model, impl, thorough)
+    lap("grid")
     n2, d2 = run_builtins(ctx, impl, thorough)
+    lap("builtins")
     n3, d3 = run_sims(ctx, model, impl, thorough)
+    lap("simulations")
     n4, d4 = run_histories(ctx, impl, thorough)
+    lap("histories")
     n5, d5 = run_graphs(ctx, model, impl, thorough)
+    lap("call graphs")
     n6, d6 = run_paths(ctx, impl, thorough)
-    n3, d3 = n3 + n4 + n5 + n6, d3 + d4 + d5 + d6
+    lap("lifecycle paths")
+    n7, d7 = run_builtin_models(ctx, model, impl, thorough)
+    lap("builtin models")
+    ctx.coverage["seconds_per_part"] = timing
+    n3, d3 = n3 + n4 + n5 + n6 + n7, d3 + d4 + d5 + d6 + d7
+    if not proved and not ctx.violations:
+        # a theorem or the regenerated tables no longer check and the quick volumes found no failing input:
+        # search with the thorough volumes (full products, 10x samples) before giving up
+        V.log("C08: proof obligation broken (%s) and no failing input yet: escalating the search to the thorough volumes" % ctx.broken)
+        for part in (lambda: run_sims(ctx, model, impl, True), lambda: run_paths(ctx, impl, True), lambda: run_graphs(ctx, model, impl, True),
+                     lambda: run_builtins(ctx, impl, True), lambda: run_builtin_models(ctx, model, impl, True),
+                     lambda: run_histories(ctx, impl, True), lambda: run_grid(ctx, model, impl, True)):
+            part()
+            if ctx.violations:
+                break
+        ctx.coverage["escalated_search"] = True
     if not proved and not ctx.violations:
         ctx.violation("proof obligation of C08 no longer checks: " + (ctx.broken or "Props/C08.v"),
                       {"no_failing_input": True, "broken": ctx.broken,
